@@ -146,6 +146,9 @@ func runC09(r *vhlib.Run) {
 	// lifecycle histories of flate.Reader (Read / Close / Reset in any order over scripted sources)
 	// against the implementation-level model, per call (Flate/ImplLife.v)
 	wfllife(r)
+	// xflate.Reader over streams whose index is consistent but whose chunks are DAMAGED DEFLATE (bytes handed
+	// over together with the error or with io.EOF), live against the Reader model, per call
+	runWXRLatch(r)
 	// lifecycle histories of bzip2.Reader against the implementation-level model, per call (Bzip2/ImplLife.v)
 	wbzlife(r)
 	// meta.Reader itself against its implementation-level model, per call (Meta/ReaderImpl.v)
